@@ -1345,6 +1345,22 @@ func genStore(c *Ctx, profile string) {
 				return
 			}
 			ops = wrapCrashes(c, ops, crashPts)
+			if pts := crashPts.Points["DeleteDataset"]; len(pts) > 0 && c.Rng.Intn(3) == 0 {
+				// a dataset whose deletion died half way: either it is still there with everything it held, or it is gone
+				// from every read (listing, unscoped lookups, relations) — and a dataset created under the name afterwards is empty
+				victim := g.dss[c.Rng.Intn(len(g.dss))]
+				ops = append(ops, M{"op": "store", "ds": victim, "ents": g.batch()},
+					M{"op": "crash", "point": pts[c.Rng.Intn(len(pts))], "hit": 1, "inner": M{"op": "deleteDs", "name": victim}})
+				for _, id := range g.ids {
+					ops = append(ops, M{"op": "q", "q": "entity", "id": id, "scope": []string{}})
+				}
+				ops = append(ops, M{"op": "q", "q": "list", "ds": victim, "pages": []int{0}},
+					M{"op": "q", "q": "related", "start": g.ids[0], "pred": "*", "inverse": false, "scope": []string{}, "limit": 0})
+				if c.Rng.Intn(2) == 0 {
+					ops = append(ops, M{"op": "createDs", "name": victim}, M{"op": "q", "q": "list", "ds": victim, "pages": []int{0}},
+						M{"op": "q", "q": "changes", "ds": victim, "since": 0, "limits": []int{0}, "latestOnly": false, "rank": true})
+				}
+			}
 			if pts := crashPts.Points["CreateDataset"]; len(pts) > 0 && c.Rng.Intn(3) == 0 {
 				// a dataset whose creation died half way, then everything a client may do with that name: create it again,
 				// rename it, delete it, write to it — nothing of that may fail for good or take the hub down
